@@ -43,6 +43,8 @@ def install(w):
         r = w.len_ext(it, v, node)
         if r is not None:
             return r
+        if it.st.spec and isinstance(v, (VOpaque, VAtom)):
+            return it.fresh_int("undef")     # undefined operand inside a guarded clause: total
         raise Unsupported(f"len of {v!r}")
     B["bi:len"] = b_len
 
@@ -410,6 +412,20 @@ def install(w):
     for nm in ("replace", "strip", "lstrip", "rstrip", "format", "translate", "capitalize",
                "title", "expandtabs"):
         B["str." + nm] = s_fresh(nm)
+
+    def s_replace(it, f, args, kw, node):
+        use("str.replace: result is some string; with literal arguments its length is bounded by "
+            "the length of the receiver (from below when the replacement is not shorter, from "
+            "above when it is not longer)")
+        r = it.fresh_str("replace")
+        if len(args) == 2 and all(isinstance(a, VStr) and a.lit is not None for a in args) \
+                and len(args[0].lit) > 0:
+            if len(args[1].lit) >= len(args[0].lit):
+                it.assume(r.hi >= f.recv.length())
+            if len(args[1].lit) <= len(args[0].lit):
+                it.assume(r.hi <= f.recv.length())
+        return r
+    B["str.replace"] = s_replace
     for nm in ("lower", "upper"):
         B["str." + nm] = s_fresh(nm, keep_len=False)
 
@@ -442,6 +458,18 @@ def install(w):
         use("str.join: result is a string (contents not modelled unless pieces are tracked)")
         r = it.fresh_str("join")
         pieces = w.join_pieces(it, sep, v, r, node)
+        items = None
+        if isinstance(v, VTuple):
+            items = v.items
+        elif isinstance(v, VList) and it.st.lists[v.oid].items is not None:
+            items = it.st.lists[v.oid].items
+        if items is not None and all(isinstance(x, VStr) for x in items) and isinstance(sep, VStr):
+            # concrete pieces: the length is the sum of the pieces plus the separators
+            n = len(items)
+            total = sep.length() * max(n - 1, 0)
+            for x in items:
+                total = total + x.length()
+            it.assume(r.hi == z3.simplify(total))
         return r
     B["str.join"] = s_join
 
